@@ -125,6 +125,8 @@ pub async fn behaviours(w: &Arc<World>, seed: u64, stall_16: u32, yield_intensit
         Info(Val),
         Notify(Val),
         HCall { client: usize, handler: usize, req: Val, reference: Val },
+        /// the client process fails; calls in its name may still be on their way
+        KillClient(usize),
     }
     let n_tasks = r.range(1, 3) as usize;
     let mut plans: Vec<Vec<Item>> = Vec::new();
@@ -135,6 +137,11 @@ pub async fn behaviours(w: &Arc<World>, seed: u64, stall_16: u32, yield_intensit
             uniq += 1;
             let tag = Val::tuple(vec![Val::int(t as i128), Val::int(uniq)]);
             let reference = ref_val(&node.make_reference());
+            if n_clients >= 2 && r.chance(1, 12) {
+                // never client 0: somebody stays to be served afterwards
+                items.push(Item::KillClient(r.range(1, n_clients as u64 - 1) as usize));
+                continue;
+            }
             items.push(match r.below(7) {
                 0 | 1 => Item::Call { client: r.below(n_clients as u64) as usize, req: Val::tuple(vec![Val::atom("req"), tag]), reference, noreply: false },
                 2 => Item::Call { client: r.below(n_clients as u64) as usize, req: Val::tuple(vec![Val::atom("noreply"), tag]), reference, noreply: true },
@@ -161,11 +168,17 @@ pub async fn behaviours(w: &Arc<World>, seed: u64, stall_16: u32, yield_intensit
                 if d > 0 {
                     tokio::time::sleep(Duration::from_millis(u64::from(d))).await;
                 }
+                if let Item::KillClient(c) = &it {
+                    let _ = node.send(&clients[*c], from_val(&crate::procs::poison())).await;
+                    w.stat("fault.client_process_failure");
+                    continue;
+                }
                 let (to, body) = match &it {
                     Item::Call { client, req, reference, .. } => (&srv, Val::tuple(vec![Val::atom("$gen_call"), Val::tuple(vec![pid_val(&clients[*client]), reference.clone()]), req.clone()])),
                     Item::Cast(v) => (&srv, Val::tuple(vec![Val::atom("$gen_cast"), v.clone()])),
                     Item::Info(v) => (&srv, v.clone()),
                     Item::Notify(v) => (&mgr_pid, Val::tuple(vec![Val::atom("$gen_notify"), v.clone()])),
+                    Item::KillClient(_) => unreachable!(),
                     Item::HCall { client, handler, req, reference } => {
                         (&mgr_pid, Val::tuple(vec![Val::atom("$gen_call"), Val::tuple(vec![pid_val(&clients[*client]), reference.clone()]), Val::Atom(format!("h{}", handler)), req.clone()]))
                     }
@@ -185,6 +198,8 @@ pub async fn behaviours(w: &Arc<World>, seed: u64, stall_16: u32, yield_intensit
     let log = log.lock().unwrap().clone();
     let events = hist.lock().unwrap().events.clone();
     let count = |kind: &str, v: &Val| log.iter().filter(|(k, x)| k == kind && x == v).count();
+    // clients that fail at some point: a reply to them may or may not be handled, everything else stands
+    let mortal: Vec<usize> = plans.iter().flatten().filter_map(|i| if let Item::KillClient(c) = i { Some(*c) } else { None }).collect();
     // which handler was removed after which notify (per handler, first remove event that reached it)
     for items in &plans {
         // per-task order of events at each handler
@@ -216,12 +231,15 @@ pub async fn behaviours(w: &Arc<World>, seed: u64, stall_16: u32, yield_intensit
                         if !got.is_empty() {
                             w.violation("gen-call-reply", "a NoReply call was answered".to_string());
                         }
+                    } else if mortal.contains(client) && got.is_empty() {
+                        w.stat("probe.c18.call_in_the_name_of_a_failed_client");
                     } else if got.len() != 1 || got[0].proc_idx != *client || got[0].got != Got::Regular(want.clone()) {
                         w.violation("gen-call-reply", format!("$gen_call with reference {:?}: {} replies, expected exactly one {:?} at client {}", reference, got.len(), want.short(), client));
                     } else {
                         w.stat("probe.c18.gen_call_replied");
                     }
                 }
+                Item::KillClient(_) => {}
                 Item::Cast(v) => {
                     if count("cast", v) != 1 {
                         w.violation("gen-cast-dispatch", format!("handle_cast ran {} times for one $gen_cast", count("cast", v)));
@@ -249,6 +267,9 @@ pub async fn behaviours(w: &Arc<World>, seed: u64, stall_16: u32, yield_intensit
                 }
                 Item::HCall { client, handler, req, reference } => {
                     let got = events.iter().filter(|e| matches!(&e.got, Got::Regular(v) if matches!(v, Val::Tuple(t) if t.first() == Some(reference)))).collect::<Vec<_>>();
+                    if mortal.contains(client) && got.is_empty() {
+                        continue;
+                    }
                     if got.len() != 1 || got[0].proc_idx != *client {
                         w.violation("gen-event-call-reply", format!("gen_event call: {} replies, expected exactly one at client {}", got.len(), client));
                         continue;
